@@ -13,12 +13,18 @@ PRIMS = {}
 ASCII = (1 << 128) - 1
 
 
+def prim_key(p):
+    """`std::` and `core::` name the same items of crate core depending on how the analysed crate
+    is built (no_std builds print core:: paths)."""
+    return p.replace("std::", "core::")
+
+
 def prim(*paths):
     from .mir import norm_path
 
     def deco(f):
         for p in paths:
-            PRIMS[norm_path(p)] = f
+            PRIMS[prim_key(norm_path(p))] = f
         return f
     return deco
 
@@ -772,6 +778,6 @@ def install_scanner_summaries(m, verified):
     for np_ in verified:
         name = np_.split("::")[-1]
         if name in SCANNER_CLASSES:
-            m.prims[np_] = scanner_summary(SCANNER_CLASSES[name])
+            m.prims[prim_key(np_)] = scanner_summary(SCANNER_CLASSES[name])
             n += 1
     return n
